@@ -89,7 +89,7 @@ def _reorders(choices: list[ChoiceChoice]) -> bool:
             first = choice.value[0]
             starts = (
                 {first, first.lower(), first.upper()}
-                if choice.case == ChoiceCase.INSENSITIVE
+                if choice.case == ChoiceCase.INSENSITIVE and first.isascii()
                 else {first}
             )
             if any(_matches(single, ch) for single in singles for ch in starts):
@@ -102,7 +102,7 @@ def _reorders(choices: list[ChoiceChoice]) -> bool:
 def _matches(choice: ChoiceChoice, ch: str) -> bool:
     """True if single character alternative `choice` matches `ch`."""
     if isinstance(choice, ChoiceLiteral):
-        if choice.case == ChoiceCase.INSENSITIVE:
+        if choice.case == ChoiceCase.INSENSITIVE and choice.value.isascii():
             return ch in (choice.value, choice.value.lower(), choice.value.upper())
         return ch == choice.value
     if isinstance(choice, ChoiceRange):
